@@ -187,14 +187,14 @@ typedef bool (*EqFn)(const void*, const void*, size_t);
 typedef int (*CmpFn)(const void*, const void*, size_t);
 struct CmpImpl { const char* name; EqFn eq; CmpFn cmp; };
 #if defined(SONIC_DYNAMIC_DISPATCH)
-__attribute__((target("pclmul,sse4.2"))) static bool eq_sse(const void* a, const void* b, size_t n) { return internal::sse::InlinedMemcmpEq(a, b, n); }
-__attribute__((target("pclmul,sse4.2"))) static int cmp_sse(const void* a, const void* b, size_t n) { return internal::sse::InlinedMemcmp(a, b, n); }
-__attribute__((target("avx2"))) static bool eq_avx2(const void* a, const void* b, size_t n) { return internal::avx2::InlinedMemcmpEq(a, b, n); }
-__attribute__((target("avx2"))) static int cmp_avx2(const void* a, const void* b, size_t n) { return internal::avx2::InlinedMemcmp(a, b, n); }
+__attribute__((target("pclmul,sse4.2"))) static bool eq_sse(const void* a, const void* b, size_t n) { return internal::sse::InlinedMemcmpEq((const char*)a, (const char*)b, n); }
+__attribute__((target("pclmul,sse4.2"))) static int cmp_sse(const void* a, const void* b, size_t n) { return internal::sse::InlinedMemcmp((const char*)a, (const char*)b, n); }
+__attribute__((target("avx2"))) static bool eq_avx2(const void* a, const void* b, size_t n) { return internal::avx2::InlinedMemcmpEq((const char*)a, (const char*)b, n); }
+__attribute__((target("avx2"))) static int cmp_avx2(const void* a, const void* b, size_t n) { return internal::avx2::InlinedMemcmp((const char*)a, (const char*)b, n); }
 static const CmpImpl kCmps[] = {{"sse_clone", eq_sse, cmp_sse}, {"avx2_clone", eq_avx2, cmp_avx2}};
 #else
-static bool eq_st(const void* a, const void* b, size_t n) { return internal::InlinedMemcmpEq(a, b, n); }
-static int cmp_st(const void* a, const void* b, size_t n) { return internal::InlinedMemcmp(a, b, n); }
+static bool eq_st(const void* a, const void* b, size_t n) { return internal::InlinedMemcmpEq((const char*)a, (const char*)b, n); }
+static int cmp_st(const void* a, const void* b, size_t n) { return internal::InlinedMemcmp((const char*)a, (const char*)b, n); }
 static const CmpImpl kCmps[] = {{"static", eq_st, cmp_st}};
 #endif
 static int sgn(int x) { return x < 0 ? -1 : x > 0 ? 1 : 0; }
@@ -217,12 +217,14 @@ static void exec_c14(const Plan& p, Outcome& out) {
         int64_t da_only = op.A(2, -1), db_only = op.A(3, -1);
         std::vector<size_t> D;
         if (!simmem::guarded()) D = {0};
+        else if (n > 300) D = {0, 1, 17, 31, 32, 500};   // long operands: fewer placements, every 16-byte window gets a mismatch
         else { for (size_t d = 0; d <= 40; d++) D.push_back(d); D.push_back(64); D.push_back(500); }
         std::string base; fill_content(base, n, cseed, 1);
         // mismatch positions: none, first, last, around vector boundaries, a few random
         std::vector<long> mm = {-1};
         if (n && n <= 40) { for (long q = 0; q < (long)n; q++) mm.push_back(q); }   // short operands: every mismatch position
-        else if (n) { mm.push_back(0); mm.push_back((long)n - 1); for (long q : {15L, 16L, 17L, 31L, 32L, 33L, 63L, 64L, 65L, 95L, 96L, 97L, 127L, 128L}) if (q < (long)n) mm.push_back(q); Rng r(cseed); for (int k = 0; k < 6; k++) mm.push_back((long)r.below(n)); }
+        else if (n) { mm.push_back(0); mm.push_back((long)n - 1); for (long q : {15L, 16L, 17L, 31L, 32L, 33L, 63L, 64L, 65L, 95L, 96L, 97L, 127L, 128L}) if (q < (long)n) mm.push_back(q); Rng r(cseed); for (int k = 0; k < 6; k++) mm.push_back((long)r.below(n));
+          if (n > 130) for (size_t w = 0; w * 16 < n; w++) { size_t q = w * 16 + (size_t)((cseed >> 20) + w * 7) % 16; if (q < n) mm.push_back((long)q); } }
         for (size_t da : D) {
           if (da_only >= 0 && (size_t)da_only != da) continue;
           CBuf A; A.init(std::string(n + da, '.').data(), n + da, simmem::PL_END);
@@ -282,7 +284,8 @@ static void exec_c14(const Plan& p, Outcome& out) {
         h = mix64(h ^ n);
       } else if (op.kind == "KeyLookup") {
         // through the API: keys are caller-owned bytes ending at guard pages; probes too
-        size_t L = (size_t)op.A(0) % 131;
+        size_t L = (size_t)op.A(0) % 1500;
+        bool aliased = (op.A(3) & 2) && L >= 8;   // keys are prefixes of ONE caller buffer: same start address, different lengths
         uint64_t cseed = (uint64_t)op.A(1);
         size_t K = (size_t)op.A(2) % 7 + 1;
         bool with_map = op.A(3) & 1;
@@ -291,6 +294,7 @@ static void exec_c14(const Plan& p, Outcome& out) {
         Rng r(cseed);
         for (size_t k = 0; k < K; k++) {
           std::string s = stem;
+          if (aliased) { keys.push_back(stem.substr(0, L - k)); continue; }
           if (L) { size_t pos = k == 0 ? L - 1 : (k == 1 ? 0 : (k == 2 ? L / 2 : r.below(L))); s[pos] = (char)('A' + k); }
           else if (k) break;
           bool dup = false; for (auto& e : keys) if (e == s) dup = true;
@@ -298,6 +302,11 @@ static void exec_c14(const Plan& p, Outcome& out) {
         }
         std::vector<CBuf> kb;
         DSim d; d.SetObject();
+        if (aliased) {
+          CBuf b(stem, simmem::PL_END); kb.push_back(b);
+          for (size_t k = 0; k < keys.size(); k++) d.AddMember(StringView(b.data, keys[k].size()), NSim((uint64_t)k), d.GetAllocator(), false);
+          probe("c14_lookup_keys_aliasing_one_buffer");
+        } else
         for (size_t k = 0; k < keys.size(); k++) {
           CBuf b(keys[k], simmem::PL_END); kb.push_back(b);
           d.AddMember(StringView(b.data, keys[k].size()), NSim((uint64_t)k), d.GetAllocator(), false);
@@ -346,14 +355,16 @@ static void gen_c14(uint64_t seed, uint64_t run, const std::string& tier, Plan& 
   p.prop = "C14"; p.seed = seed; p.run = run; p.tier = tier;
   p.knobs["envseed"] = (int64_t)(mix64(rs ^ 0x77) >> 1);
   size_t n = (size_t)(run % (tier == "thorough" ? 261 : 131));
+  if (r.chance(1, 5)) n = 131 + (size_t)r.below(1200);        // long operands: unrolled multi-vector loops
+  else if (r.chance(1, 80)) n = 1300 + (size_t)r.below(8000);
   { p.ops.emplace_back(); Op& op = p.ops.back(); op.kind = "Memcmp"; op.a = {(int64_t)n, (int64_t)(r.next() >> 1), -1, -1}; }
   if (r.chance(1, 400)) { p.ops.emplace_back(); Op& op = p.ops.back(); op.kind = "MemcmpHuge"; op.a = {(int64_t)r.below(4096), (int64_t)r.below(1 << 20)}; }
-  for (int k = 0; k < 2; k++) { p.ops.emplace_back(); Op& op = p.ops.back(); op.kind = "KeyLookup"; op.a = {(int64_t)(k == 0 ? n : r.below(131)), (int64_t)(r.next() >> 1), (int64_t)r.below(7), (int64_t)k}; }
+  for (int k = 0; k < 2; k++) { p.ops.emplace_back(); Op& op = p.ops.back(); op.kind = "KeyLookup"; op.a = {(int64_t)(k == 0 ? n : r.below(131)), (int64_t)(r.next() >> 1), (int64_t)r.below(7), (int64_t)(k + (r.chance(1, 4) ? 2 : 0))}; }
 }
 
 static const Profile kC09 = {"C09", gen_c09, exec_c09,
   "enumeration: run i takes string length n = i mod 161; for EVERY distance 0..70 (+96,128,200,1000,3000) between the end of the string and a PROT_NONE page, source placed accordingly and destination of exactly 6n+32+3 bytes ending at a guard page, each kernel available in the flavour (static; in the dispatch build also the sse and avx2 clones directly) is run with benign and hostile trailing bytes; contents are seeded (6 byte-class mixes; for n<=70 one special byte walking over every position); plus Serialize of string arrays into tight buffers. evaluations = runs; reach probe c09_quote_calls counts kernel executions; non-trivial = >=1 guarded placement fired; distinct = hash(op list, output digest)"};
 static const Profile kC14 = {"C14", gen_c14, exec_c14,
-  "enumeration: run i takes length n = i mod 131; both operands at distances 0..40 (+64,500) from a PROT_NONE page (all pairs near the page, every third pair in the interior), mismatch at none/first/last/vector-boundary/random positions, bytes after the operands equal or different, each kernel of the flavour (dispatch build: sse and avx2 clones) judged against memcmp, plus API lookups (FindMember both overloads, HasMember, with and without map) on objects whose key bytes and probe keys end at guard pages. evaluations = runs; reach probe c14_compare_calls counts comparisons; distinct = hash(op list)"};
+  "enumeration: run i takes length n = i mod 131 (one run in five 131..1330 and one in eighty up to 9300, with a mismatch in every 16-byte window); both operands at distances 0..40 (+64,500) from a PROT_NONE page (all pairs near the page, every third pair in the interior), mismatch at none/first/last/vector-boundary/random positions, bytes after the operands equal or different, each kernel of the flavour (dispatch build: sse and avx2 clones) judged against memcmp, plus API lookups (FindMember both overloads, HasMember, with and without map) on objects whose key bytes and probe keys end at guard pages. evaluations = runs; reach probe c14_compare_calls counts comparisons; distinct = hash(op list)"};
 static ProfileReg r09(&kC09), r14(&kC14);
 }  // namespace
